@@ -36,10 +36,10 @@ Theorem C17_permanent_ban_stands :
     verdict_of_request (last_request ip (qs1 ++ (ip, None) :: qs2)) now = RefusePerm.
 Proof. exact permanent_ban_stands. Qed.
 (* once a temporary ban has expired the address can log in again *)
-Theorem C17_expired_ban_admits :
+Theorem C17_expired_ban_lets_in :
   forall ip qs u now, last_request ip qs = Some (Some u) -> u <= now ->
     verdict_of_request (last_request ip qs) now = Admit.
-Proof. exact expired_ban_admits. Qed.
+Proof. exact expired_ban_lets_in. Qed.
 
 (* every other address is unaffected *)
 Theorem C17_other_addresses_unaffected :
@@ -74,15 +74,15 @@ Definition h1 : list ev :=
    EConnect 4 ipA false 2000; EConnect 5 ipB false 2000; EConnect 6 ipC false 2000;
    EConnect 7 ipA false (1000 + BAN_DURATION)].
 Example C17_nonvacuous :
-  (run world0 h1).2 = [OAdmitted; OAdmitted; OAdmitted; OKicked [2; 3]; OKicked [3]; ONone;
-                       ORefused false; ORefused true; OAdmitted; OAdmitted].
+  (run world0 h1).2 = [OLetIn; OLetIn; OLetIn; OKicked [2; 3]; OKicked [3]; ONone;
+                       ORefused false; ORefused true; OLetIn; OLetIn].
 Proof. vm_compute. reflexivity. Qed.
 
 Print Assumptions C17_refused_iff_latest_request.
 Print Assumptions C17_kick_records_ban.
 Print Assumptions C17_ban_term_respected.
 Print Assumptions C17_permanent_ban_stands.
-Print Assumptions C17_expired_ban_admits.
+Print Assumptions C17_expired_ban_lets_in.
 Print Assumptions C17_other_addresses_unaffected.
 Print Assumptions C17_refused_before_login.
 Print Assumptions C17_kick_closes_and_tells_others.
